@@ -3,6 +3,10 @@
 //   thread mode  : (-DVTBB_THREADS, built with -fsanitize=thread) one run per input, one thread per leaf
 #define VH_TBB 1
 #include <memory>
+#if !defined(VTBB_THREADS) && !defined(__SANITIZE_ADDRESS__) && !defined(__SANITIZE_THREAD__)
+#define VH_ARENA 1
+#include "common/ptrorder.hpp"
+#endif
 #include "common/runner.hpp"
 #include "common/graphs.hpp"
 #include "common/bgl.hpp"
@@ -30,9 +34,19 @@ static Verdict run_and_check(int var, long k, B &b, const vg::EdgeList &el, cons
     Verdict v;
     vv::CycleList<W> cycles;
     W ret = 0;
+#ifdef VH_ARENA
+    // the approximation algorithms build a private spanner graph on the heap; the relative address order of its edge nodes
+    // (it decides tie-breaking inside the exact phase) is owned by the explorer: ascending (default) or descending
+    if (k > 0) { vptr::node_size = sizeof(std::_List_node<typename B::Graph::EdgeContainer::value_type>); vptr::arena_begin(vx::choose(2, vx::ORDER) == 1); }
+#endif
     try { ret = k > 0 ? vv::run_approx<W>(var, b, (std::size_t) k, cycles) : vv::run_exact<W>(var, b, cycles); }
-    catch (std::exception &e) { v.ok = false; v.cls = "exception"; v.msg = e.what(); return v; }
-    catch (...) { v.ok = false; v.cls = "exception"; v.msg = "unknown exception"; return v; }
+    catch (std::exception &e) { v.ok = false; v.cls = "exception"; v.msg = e.what(); }
+    catch (...) { v.ok = false; v.cls = "exception"; v.msg = "unknown exception"; }
+#ifdef VH_ARENA
+    vptr::arena_end();
+    if (vptr::arena_exhausted) { fprintf(stderr, "HARNESS-ERROR pointer-order arena exhausted\n"); exit(2); }
+#endif
+    if (!v.ok) return v;
     auto chk = vb::check_cycle_set<W>(b, w, cycles, dim);
     if (verbose) printf("returned=%s emitted_total=%s weights=%s count=%zu %s\n", vg::fmt_w(ret).c_str(), vg::fmt_w(chk.total).c_str(), vb::vec_str(chk.weights).c_str(), chk.masks.size(), chk.ok ? "valid" : chk.msg.c_str());
     if (!chk.ok) { v.ok = false; v.cls = chk.cls; v.msg = chk.msg; return v; }
